@@ -1,0 +1,23 @@
+//go:build verif
+
+// Add-only verification hook for property C12 (copies are independent): identity of the
+// backing array of a dense matrix (address of element 0 and length), so that the harness can
+// tell which matrix objects share storage.
+package autodiff
+
+import "unsafe"
+
+func VerifC12StorageID(m ConstMatrix) (uintptr, int) {
+  switch a := m.(type) {
+  case *DenseFloat64Matrix:
+    if len(a.values) == 0 { return 0, 0 }
+    return uintptr(unsafe.Pointer(&a.values[0])), len(a.values)
+  case *DenseReal64Matrix:
+    if len(a.values) == 0 { return 0, 0 }
+    return uintptr(unsafe.Pointer(&a.values[0])), len(a.values)
+  case *DenseIntMatrix:
+    if len(a.values) == 0 { return 0, 0 }
+    return uintptr(unsafe.Pointer(&a.values[0])), len(a.values)
+  }
+  return 0, -1
+}
